@@ -110,7 +110,7 @@ def predict_clock(times, start):
 
 # ------------------------------------------------------------------ enumeration
 
-def _pattern_spec(items):
+def _pattern_spec(items, inf=False):
     spec = {}
     for it in items:
         if it == "scene":
@@ -121,7 +121,7 @@ def _pattern_spec(items):
             both = "charge_array" in items and "charge_clusters" in items
             spec["charge"] = {"how": "both" if both else it.split("_")[1]}
         elif it == "pixel":
-            spec["pixel"] = {"acc": True}
+            spec["pixel"] = {"acc": True, "inf": bool(inf)}     # inf: one pixel saturates to +infinity
         elif it == "signal":
             spec["signal"] = {}
         elif it == "image":
@@ -225,7 +225,7 @@ def enumerate_cases(tier, seed):
                 for h in hist:
                     start = [0.0, 0.25, -1.0][(si + pi) % 3]
                     cases.append({"fam": "L", "times": times, "start": start, "nd": nd, "pattern": pat, "history": h,
-                                  "det": "ccd", "entry": "ctor", "rep": "list"})
+                                  "det": "ccd", "entry": "ctor", "rep": "list", "inf": bool((si + pi) % 2)})
     if not thorough:       # the two other histories on a reduced product
         for si, times in enumerate(SCHEDULES):
             for nd in (False, True):
@@ -334,11 +334,11 @@ def expected_size(tier, seed):
 
 # ------------------------------------------------------------------ construction
 
-def _pipeline_groups(pattern, salt, pattern_odd=None):
+def _pipeline_groups(pattern, salt, pattern_odd=None, inf=False):
     """observer first (scene_generation), writer in the middle, observer last (data_processing)"""
-    wargs = {"spec": _pattern_spec(pattern), "salt": salt}
+    wargs = {"spec": _pattern_spec(pattern, inf), "salt": salt}
     if pattern_odd is not None:
-        wargs["spec_odd"] = _pattern_spec(pattern_odd)
+        wargs["spec_odd"] = _pattern_spec(pattern_odd, inf)
     return {
         "scene_generation": [("vp.exp_util.observe", "first", {})],
         "charge_collection": [("vp.exp_util.write", "w", wargs)],
@@ -452,7 +452,9 @@ def make_history(det, history, salt, case=None):
     if history == "prefilled":
         shape = (det.geometry.row, det.geometry.col)
         det.photon.array = U.value_for("photon", 3, shape, salt)
-        det.pixel.array = U.value_for("pixel", 3, shape, salt)
+        px = U.value_for("pixel", 3, shape, salt)
+        px[0, 0] = np.inf                           # a saturated pixel left behind by whatever used the detector before
+        det.pixel.array = px
         det.signal.array = U.value_for("signal", 3, shape, salt)
         det.image.array = U.image_values("ramp", "uint16", 3, shape, salt)
         det.charge.add_charge_array(U.value_for("charge", 3, shape, salt))
@@ -587,7 +589,8 @@ def run_case(case):
 
                 mode = Exposure(readout=readout)
                 det = mk.detector(case["det"], ROWS, COLS)
-                pipe = mk.pipeline(_pipeline_groups(case["pattern"], salt, pattern_odd=case.get("pattern_odd")))
+                pipe = mk.pipeline(_pipeline_groups(case["pattern"], salt, pattern_odd=case.get("pattern_odd"),
+                                                    inf=bool(case.get("inf"))))
             stage = "history"
             make_history(det, case["history"], salt, case)
             stage = "run"
